@@ -285,7 +285,91 @@ def _mk_descriptor(kind, psi_sign=1.0):
     return body
 
 
+def ob_segments_wiring(env):
+    """segmentsWithPsivals hands each segment's own nx, psi_start, psi_end and separatrix gradients to the grid function in their roles,
+    grids it with the same nx, adds psi_vals and leaves the caller's dictionaries alone"""
+    import hypnotoad.cases.tokamak as tok
+    me = tok.TokamakEquilibrium.__new__(tok.TokamakEquilibrium)
+    calls, grids = [], []
+
+    def gridfunc(n, lower, upper, grad_lower=None, grad_upper=None):
+        calls.append((n, lower, upper, grad_lower, grad_upper))
+        return ("func", len(calls) - 1)
+
+    def make1d(n, f):
+        grids.append((n, f))
+        return ("grid", n, f)
+
+    me.getSmoothMonotonicGridFunc = gridfunc
+    me.make1dGrid = make1d
+    segs = {}
+    for k, (gs, ge) in enumerate(((False, True), (True, False), (True, True), (False, False))):
+        d = {"nx": env.int("nx%d" % k, lo=1), "psi_start": env.real("ps%d" % k), "psi_end": env.real("pe%d" % k)}
+        if gs:
+            d["grad_start"] = env.real("gs%d" % k)
+        if ge:
+            d["grad_end"] = env.real("ge%d" % k)
+        segs["seg%d" % k] = d
+    snapshot = {n: dict(d) for n, d in segs.items()}
+    out = me.segmentsWithPsivals(segs)
+    env.witness("returned")
+    env.claim("one_result_per_segment", list(out) == list(segs))
+    for k, (n, d) in enumerate(segs.items()):
+        c = calls[k]
+        env.claim("grid_function_gets_the_segment's_own_values:%s" % n, c[0] is d["nx"] and c[1] is d["psi_start"] and c[2] is d["psi_end"]
+                  and c[3] is d.get("grad_start") and c[4] is d.get("grad_end"))
+        env.claim("gridded_with_the_segment's_nx_and_function:%s" % n, out[n]["psi_vals"] == ("grid", d["nx"], ("func", k)) and out[n]["psi_vals"][1] is d["nx"])
+        env.claim("result_keeps_the_descriptor:%s" % n, all(out[n][key] is d[key] for key in d))
+        env.claim("input_not_modified:%s" % n, set(d) == set(snapshot[n]) and all(d[key] is snapshot[n][key] for key in d))
+
+
+def ob_radial_limits(env):
+    """makeRegions: psi_core/psi_sol/psi_sol_inner/psi_pf_lower/psi_pf_upper are the psi_* option when given, otherwise
+    psi_axis + psinorm_* (psi_sep[0] - psi_axis)"""
+    from symx import slices
+    import hypnotoad.cases.tokamak as tok
+    env.resolve_abs = False
+    fn, info = slices.slice_function(tok.TokamakEquilibrium.makeRegions, slices.is_assign_to("self.psi_core"), slices.is_assign_to("Rws"), ["self"], tok.__dict__,
+                                     name="makeRegions_limits")
+    names = ["core", "sol", "sol_inner", "pf_lower", "pf_upper"]
+    opts, given = {}, {}
+    for n in names:
+        opts["psinorm_" + n] = env.real("psinorm_" + n)
+        given[n] = bool(env.choose(2))
+        opts["psi_" + n] = env.real("psi_" + n) if given[n] else None
+    opts["poloidal_spacing_delta_psi"] = None
+    me = tok.TokamakEquilibrium.__new__(tok.TokamakEquilibrium)
+    me.user_options = types.SimpleNamespace(**opts)
+    me.psi_axis = env.real("psi_axis")
+    me.psi_sep = [env.real("psi_sep0"), env.real("psi_sep1")]
+    env.tag("explicit=%s" % ",".join(n for n in names if given[n]))
+    if env.mode == "sym":
+        fn.__globals__["np"] = PROXY
+    try:
+        fn(me)
+    finally:
+        fn.__globals__["np"] = numpy
+    env.witness("limits_set")
+    for n in names:
+        got = getattr(me, "psi_" + n)
+        if given[n]:
+            env.claim("explicit_psi_value_is_used:" + n, got is opts["psi_" + n])
+        else:
+            env.claim_eq("limit_from_normalised_psi:" + n, got, me.psi_axis + opts["psinorm_" + n] * (me.psi_sep[0] - me.psi_axis))
+    d = (me.psi_core - me.psi_sol) / 20.0
+    dp = me.poloidal_spacing_delta_psi
+    env.claim("poloidal_spacing_delta_psi_default=+-(psi_core-psi_sol)/20", ((dp == d) | (dp == -d)) if env.mode == "sym" else bool(env.close(abs(dp), abs(d))))
+    env.claim("poloidal_spacing_delta_psi_default>=0", me.poloidal_spacing_delta_psi >= 0)
+
+
 ENC = ["hypnotoad.core.equilibrium:Equilibrium.getSmoothMonotonicGridFunc"]
+OBLIGATIONS.append(Ob("segments_wiring", ob_segments_wiring, tier="quick", family="descriptor", encodes=["hypnotoad.cases.tokamak:TokamakEquilibrium.segmentsWithPsivals"],
+                      desc="each radial segment is gridded from its own nx, limits and separatrix gradients (roles not exchanged); caller's dictionaries untouched",
+                      stubs=["getSmoothMonotonicGridFunc, make1dGrid -> recorders"], bounds="4 segments covering the 4 combinations of given gradients"))
+OBLIGATIONS.append(Ob("radial_limits_from_options", ob_radial_limits, tier="quick", family="descriptor",
+                      encodes=["hypnotoad.cases.tokamak:TokamakEquilibrium.makeRegions", "hypnotoad.cases.tokamak:TokamakEquilibrium._psinorm_to_psi"],
+                      desc="core/SOL/PFR limits: the psi_* option if given, else psi_axis + psinorm_*(psi_sep[0]-psi_axis), for all 32 given/not-given combinations",
+                      bounds="all values real, symbolic"))
 OBLIGATIONS.append(Ob("gridfunc_no_gradient", ob_linear, tier="quick", family="linear", desc="end values, monotone, nesting", encodes=ENC, bounds="n>=1 real"))
 for _w in ("lower", "upper"):
     OBLIGATIONS.append(Ob("gridfunc_grad_" + _w, _mk_one_sided(_w), tier="quick", family="one-sided gradient",
